@@ -416,7 +416,8 @@ def c05(ctx: Any, total: int) -> None:
             break
         index = ctx.shard + i * ctx.nshards
         rng = ctx.rng("cli", index)
-        country, env_value, period = COUNTRIES[index % len(COUNTRIES)]
+        # every other run is rp2_us (the one country whose tax report prints the flag as well), the others rotate
+        country, env_value, period = COUNTRIES[0] if index % 2 == 0 else COUNTRIES[(index // 2) % len(COUNTRIES)]
         hist = boundary_history(rng, period if period is not None else 365)
         language = rng.choice(COUNTRY_LANGUAGES[country])
         args = ["-g", language]
